@@ -451,4 +451,21 @@ theorem orthonormal_columns_isOrthogonal (V : M3 K) (hc : @M3.mul K (fieldNum K 
   rw [h1] at h
   exact mul_self_eq_one_iff.1 h.symm
 
+/-- **3-D `from_trimesh`, complete**: when the body of `from_trimesh` hands `(com, mass, inertia)` to `with_inertia_matrix`
+(outcome `.raw`, characterised by `from_trimesh3_unfold` / `from_trimesh3_closed`) and the solver returns an orthonormal
+eigen-decomposition with non-negative eigenvalues, the returned `MassProperties` has exactly that mass and centre, a unit
+frame and `reconstruct_inertia_matrix() = inertia`; the zero-volume outcome is `zero()`, the panics stay panics.
+(`from_convex_polyhedron` and `TriMesh::mass_properties` are this function.) -/
+theorem from_trimesh3_full (hs : LawfulSqrt sq) (eig : M3 K → V3 K × M3 K) (density : K) (vs : List (V3 K)) (idx : List (Nat × Nat × Nat)) :
+    letI := fieldNum K sq
+    (fromTrimesh3 density vs idx = .panic → fromTrimesh3Full eig density vs idx = none) ∧
+    (fromTrimesh3 density vs idx = .zero → fromTrimesh3Full eig density vs idx = some MP3.zero) ∧
+    (∀ c m I, fromTrimesh3 density vs idx = .raw c m I →
+      EigenDecomp sq I (eig I).1 (eig I).2 → 0 ≤ (eig I).1.x → 0 ≤ (eig I).1.y → 0 ≤ (eig I).1.z →
+      ∃ p, fromTrimesh3Full eig density vs idx = some p ∧ p.reconstruct = I ∧ massOf3 p = m ∧ p.com = c ∧ UnitQ p.frame) := by
+  refine ⟨fun h => by simp only [fromTrimesh3Full, h], fun h => by simp only [fromTrimesh3Full, h], ?_⟩
+  intro c m I h hD e1 e2 e3
+  obtain ⟨r1, r2, r3, r4, -⟩ := with_inertia_matrix_recompose sq hs c m I (eig I).1 (eig I).2 hD e1 e2 e3
+  exact ⟨_, by simp only [fromTrimesh3Full, h, MP3.withInertiaMatrix], r1, r2, r3, r4⟩
+
 end C13
